@@ -262,6 +262,12 @@ fn sorted_list(rng: &mut Rng, k: usize, umax_end: bool) -> Vec<(usize, usize)> {
 }
 
 fn emit_function_cases(out: &mut impl Write, rng: &mut Rng, n: usize) -> usize {
+    // lists with a range that STARTS at UINT32_MAX while the other list is exhausted: defined since /repo 958e7c7
+    // (before, the loop stepped the exhausted list back "into" a range and read ranges[count])
+    let m = UMAX;
+    writeln!(out, "F fsx0 symdiff 2 0 0 0 {m} {m} {m} {m} {m} {m} {m} {m} {m} 1 0 0 0 5 0 5").unwrap();
+    writeln!(out, "F fsx1 symdiff 1 0 0 0 5 0 5 2 0 0 0 {m} {m} {m} {m} {m} {m} {m} {m} {m}").unwrap();
+    writeln!(out, "F fsx2 symdiff 2 3 0 3 {m} {m} {m} {m} {m} {m} {m} {m} {m} 0").unwrap();
     for i in 0..n {
         match i % 3 {
             0 => {
